@@ -7,7 +7,8 @@
    The stream is the list of chunks its Read calls deliver (an empty chunk is a
    (0, nil) read; after the last chunk Read returns io.EOF).  nalBuffer is kept
    in reverse (last byte first): append is cons, cutting the zero bytes of a
-   start code off its end is dropping from the front. *)
+   start code off its end is dropping from the front; rev_append _ [] is the
+   linear-time reversal. *)
 From Coq Require Import List ZArith NArith String Bool.
 Import ListNotations.
 From Verif Require Import Common.V Common.Base Common.Media1Util.
@@ -58,8 +59,13 @@ Definition set_nal (s : rstate) (nb : list N) (z : N) : rstate :=
 Definition set_parsed (s : rstate) : rstate :=
   {| chunks := chunks s; rbuf := rbuf s; nalrev := nalrev s; zeros := zeros s; parsed := true |}.
 
-Definition bytes_eqb (a b : list N) : bool :=
-  if list_eq_dec N.eq_dec a b then true else false.
+(* bytes.Equal *)
+Fixpoint bytes_eqb (a b : list N) : bool :=
+  match a, b with
+  | [], [] => true
+  | x :: a', y :: b' => (x =? y) && bytes_eqb a' b'
+  | _, _ => false
+  end.
 
 (* bitStreamStartsWithH26xPrefix *)
 Definition starts_with_prefix (s : rstate) : result unit * rstate :=
@@ -95,7 +101,7 @@ Definition process_byte (b : N) (nb : list N) (z : N) : bool * list N * N :=
 (* the test made on a found unit before it is returned: both readers index
    nalBuffer[0] first (Panic when empty), then apply the skip rule sk to it *)
 Definition skip_unit (sk : N -> bool) (nb : list N) : result bool :=
-  match rev nb with
+  match rev_append nb [] with
   | [] => Panic
   | b :: _ => Ok (sk b)
   end.
@@ -138,7 +144,7 @@ Definition next_nal (sk : N -> bool) (s : rstate) : result (list N) * rstate :=
   | (Ok _, s1) =>
       match nal_loop (S (S (remaining s1))) sk s1 with
       | Broke s2 =>
-          match rev (nalrev s2) with
+          match rev_append (nalrev s2) [] with
           | [] => (Err "eof", s2)                               (* len(nalBuffer) == 0 *)
           | b :: t =>
               let s3 := set_nal s2 [] (zeros s2) in
@@ -217,7 +223,7 @@ Fixpoint has_sc (l : list N) : bool :=
   end.
 
 Definition last_nonzero (l : list N) : bool :=
-  match rev l with [] => false | x :: _ => negb (x =? 0) end.
+  match rev_append l [] with [] => false | x :: _ => negb (x =? 0) end.
 
 (* a unit the property quantifies over: not empty, no trailing zero byte, no
    emulated start code *)
@@ -227,3 +233,83 @@ Definition nal_ok (n : list N) : bool := last_nonzero n && negb (has_sc n).
 Definition start_code (four : bool) : list N := if four then [0; 0; 0; 1] else [0; 0; 1].
 Definition frame (l : list (bool * list N)) : list N :=
   flat_map (fun wn => start_code (fst wn) ++ snd wn) l.
+
+(* ---------- the same reader over the plain byte string ----------
+   (spec side of c34_chunking: what the chunked reader computes depends on the
+   concatenation of the chunks only) *)
+
+(* the for loop of NextNAL over the unread bytes: None = panic, otherwise
+   (nalBuffer reversed, zero counter, bytes left) at the break *)
+Fixpoint floop (sk : N -> bool) (bytes : list N) (nb : list N) (z : N)
+  : option (list N * N * list N) :=
+  match bytes with
+  | [] => Some (nb, z, [])
+  | b :: t =>
+      match process_byte b nb z with
+      | (true, nb', z') =>
+          match skip_unit sk nb' with
+          | Ok true => floop sk t [] z'
+          | Ok false => Some (nb', z', t)
+          | _ => None
+          end
+      | (false, nb', z') => floop sk t (b :: nb') z'
+      end
+  end.
+
+(* unread bytes, nalBuffer reversed, zero counter, nalPrefixParsed *)
+Definition fstate : Type := list N * list N * N * bool.
+
+(* bitStreamStartsWithH26xPrefix when every Read delivers at least one byte:
+   fewer than four bytes left is io.EOF *)
+Definition fprefix (bytes nb : list N) : result (list N) * list N :=
+  if lenN bytes <? 4 then (Err "eof", bytes)
+  else
+    let pb := takeN 4 bytes in
+    let rest := dropN 4 bytes in
+    if bytes_eqb [0; 0; 1] (takeN 3 pb) then
+      match dropN 3 pb with
+      | b :: _ => (Ok (b :: nb), rest)
+      | [] => (Panic, rest)
+      end
+    else if bytes_eqb [0; 0; 0; 1] pb then (Ok nb, rest)
+    else (Err "notstream", rest).
+
+(* the loop and the final test of NextNAL, once the prefix is dealt with *)
+Definition fafter (sk : N -> bool) (bytes1 nb1 : list N) (z : N) : result (list N) * fstate :=
+  match floop sk bytes1 nb1 z with
+  | Some (nb2, z2, rest) =>
+      match rev_append nb2 [] with
+      | [] => (Err "eof", (rest, nb2, z2, true))
+      | b :: t => if sk b then (Err "eof", (rest, [], z2, true))
+                  else (Ok (b :: t), (rest, [], z2, true))
+      end
+  | None => (Panic, (bytes1, nb1, z, true))
+  end.
+
+Definition fnext (sk : N -> bool) (f : fstate) : result (list N) * fstate :=
+  match f with
+  | (bytes, nb, z, p) =>
+      match (if p then (Ok nb, bytes) else fprefix bytes nb) with
+      | (Ok nb1, bytes1) => fafter sk bytes1 nb1 z
+      | (Err e, bytes1) => (Err e, (bytes1, nb, z, p))
+      | (Panic, bytes1) => (Panic, (bytes1, nb, z, p))
+      end
+  end.
+
+Fixpoint fread_nals (fuel : nat) (sk : N -> bool) (f : fstate) : list (list N) * string :=
+  match fuel with
+  | O => ([], "out-of-fuel"%string)
+  | S k =>
+      match fnext sk f with
+      | (Ok n, f1) => let r := fread_nals k sk f1 in (n :: fst r, snd r)
+      | (Err e, _) => ([], e)
+      | (Panic, _) => ([], "panic"%string)
+      end
+  end.
+
+Definition flat_read_all (sk : N -> bool) (bytes : list N) : list (list N) * string :=
+  fread_nals (S (S (List.length bytes))) sk (bytes, [], 0, false).
+
+(* is a unit dropped by the skip rule (decided on its first byte) *)
+Definition unit_skipped (sk : N -> bool) (n : list N) : bool :=
+  match n with b :: _ => sk b | [] => false end.
